@@ -1,0 +1,11 @@
+//go:build verif
+
+package kafkaproducer
+
+// Verification hook (build tag "verif" only; add-only): a KafkaProducer over a caller-supplied MessageProducer,
+// as Setup leaves it, without the events-receiver goroutine.
+
+// NewKafkaProducerE5V builds a KafkaProducer over the passed client and topic.
+func NewKafkaProducerE5V(producer MessageProducer, topic string) *KafkaProducer {
+	return &KafkaProducer{producer: producer, topic: topic, stopChan: make(chan bool)}
+}
